@@ -13,8 +13,8 @@
 
    Total observer: never blocks; a false clause adds <<trace, index, clause>> to viol,
    printed at the end of the file. `drift` counts operations on which the real code did
-   something else than the implementation-shaped model of the pinned tree predicted (cases
-   emitted by the pinned variants of spec/Admin.tla only; soft, never a verdict). *)
+   something else than the implementation-shaped model predicted (cases emitted by the
+   reference variants of spec/Admin.tla only; soft, never a verdict). *)
 EXTENDS AdminOracle, TLC, Json
 
 Trace == ndJsonDeserialize("trace.ndjson")
@@ -64,7 +64,7 @@ TRet ==
   /\ E.ev = "ret"
   /\ IF cur.fam = "ctl"
      THEN /\ viol' = viol \cup Tag(CtlRetViol(CtlCase(cur), att, [cls |-> E.cls, code |-> E.code]))
-          /\ ndrift' = ndrift + (IF cur.src # "pinned" \/ (Len(att) = cur.pred_att /\ E.cls = cur.pred_cls /\ E.code = cur.pred_code) THEN 0 ELSE 1)
+          /\ ndrift' = ndrift + (IF cur.src # "ref" \/ (Len(att) = cur.pred_att /\ E.cls = cur.pred_cls /\ E.code = cur.pred_code) THEN 0 ELSE 1)
      ELSE /\ viol' = viol \cup Tag(SpreadRetViol(SpreadCase(cur), reqs, [cls |-> E.cls, code |-> E.code, reported |-> ToSet(E.reported)]))
           /\ ndrift' = ndrift
   /\ nops' = nops + 1
